@@ -125,12 +125,12 @@ PROPS = {
              "every draw well-formed; per thread every assignment sees both values and no two assignments have equal or "
              "complementary signatures; draws pairwise distinct for n >= 8 also across threads (false-alarm probability < 2^-200)",
              chunk_weight=1),
-    "C12": P(hunt=True, mc=TWO_MC, strict_ops=["t_mk", "t_val", "t_bin", "t_rel", "t_implut", "t_info", "t_all"],
+    "C12": P(hunt=True, proofs=["CubeLemmas.tla"], mc=TWO_MC, strict_ops=["t_mk", "t_val", "t_bin", "t_rel", "t_implut", "t_info", "t_all"],
              rule="all cubes and pairs over n <= 3 (5 thorough) with every assignment, implies_lut against all functions, "
              "constructors up to 32 variables, random 32-variable cubes with random 32-bit assignments"),
     "C13": P(hunt=True, mc=TWO_MC, strict_ops=["t_mk", "t_val", "t_bin", "t_not", "t_rel", "t_implut", "t_info", "t_all", "t_tolut"],
              rule="all exclusive cubes and pairs over n <= 4 (5 thorough), random 32-variable ones; all Soes of <= 2 (3) terms over n <= 3, random to n = 8"),
-    "C14": P(hunt=True, mc=TWO_MC, strict_ops=["t_mk", "t_val", "t_bin", "t_not", "t_info", "t_tolut"],
+    "C14": P(hunt=True, proofs=["CubeLemmas.tla"], mc=TWO_MC, strict_ops=["t_mk", "t_val", "t_bin", "t_not", "t_info", "t_tolut"],
              rule="all cube lists of <= 2 (3) cubes over n <= 3, Lut->Sop->Lut for every function of n <= 3 (4), nested expressions "
              "(depth <= 4) over random redundant/overlapping/duplicated cube lists up to n = 10", chunk_weight=6000),
     "C15": P(hunt=True, mc=TWO_MC, strict_ops=["t_mk", "t_val", "t_bin", "t_not", "t_info", "t_tolut"],
